@@ -1,7 +1,7 @@
 CONSTANTS
   Widths = {3, 32, 48}
   MaxReq = 2
-  Pads = {0, 1500, 70000}
+  Pads = {0, 1500, 40000, 70000}
   NativeArmEmpty = FALSE
   AllowLateRequest = FALSE
   EmitCases = TRUE
